@@ -27,7 +27,7 @@ EXPLANATION = ('Pairing / restoration rules on the CFG of Segment::justify (ever
                'showing that every link of a pre-existing slot is restored, the exact write set of gr_slot_linebreak_before, and the '
                'loader rule that keeps list mutators out of justification passes.  Finiteness of the returned width and origins, and '
                'reverseSlots being its own inverse for every diacritic arrangement, are not decided.')
-FLOORS = {'RESTORE': 2, 'REVERSEPAIR': 3, 'LINEENDPAIR': 3, 'UNDO': 2, 'LINEBREAK': 1, 'NOMUTPOS': 4}
+FLOORS = {'RESTORE': 2, 'REVERSEPAIR': 3, 'LINEENDPAIR': 3, 'UNDO': 2, 'LINEBREAK': 1, 'NOMUTPOS': 4, 'ADVIDX': 2}
 
 
 def _assign_blocks(fn, lhs_render, rhs_pred=None):
@@ -571,5 +571,7 @@ def run(run):
     justpool(run, fx)
     linebreak(run, fx)
     c03.nomutpos(run, vm)
+    from . import c02
+    c02.advidx(run, fx)      # justify positions with the caller's gr_font: the hinted-advance cache index (shared with C02)
     run.assume('allocation failure (addLineEnd returning NULL) is outside the quantifier: the `return -1.0` exit is exempt')
     run.observe('reverseSlots being an involution for arbitrary diacritic arrangements is value-dependent and not decided')
